@@ -148,6 +148,7 @@ type Machine struct {
 	stopped      bool
 	symDecisions int
 	escaped      map[*Object]bool
+	syncMaps     map[string]*MapObj
 	cut          bool
 	skipVis      bool // execute the pending visible instruction as a step of its own (atomic op, racy load/store)
 	overlay      map[*Object]Value
